@@ -170,6 +170,8 @@ Proof.
   - apply wrap_over; lia.
 Qed.
 
+Ltac splits := repeat match goal with |- _ /\ _ => split end.
+
 Ltac bools :=
   repeat match goal with
   | H : (_ || _) = true |- _ => apply orb_true_iff in H
@@ -534,4 +536,794 @@ Proof.
     + eexists. split; [reflexivity|]. split; [exact W1|].
       split; [congruence|]. split; [congruence|].
       unfold pq_packets. rewrite Ei. cbn. rewrite Eh. reflexivity.
+Qed.
+
+(* ------------------------------------------------------------------ *)
+(* Part B: one socket                                                  *)
+(* ------------------------------------------------------------------ *)
+Definition dgram : Type := (dmeta * list Z)%type.
+
+Definition sock_wf (s : sock) : Prop := pq_wf (sock_rx s) /\ pq_wf (sock_tx s).
+Definition tx_pending (s : sock) : list dgram := pq_packets (sock_tx s).
+Definition rx_pending (s : sock) : list dgram := pq_packets (sock_rx s).
+
+(* a socket whose two queues were just created (any capacities, any binding) *)
+Definition sock_is_new (s : sock) : Prop :=
+  exists rm rp tm tp, 0 <= rm /\ 0 <= rp /\ 0 <= tm /\ 0 <= tp /\
+    sock_rx s = pq_new rm rp /\ sock_tx s = pq_new tm tp.
+
+Lemma sock_is_new_wf : forall s, sock_is_new s -> sock_wf s /\ tx_pending s = [] /\ rx_pending s = [].
+Proof.
+  intros s (rm & rp & tm & tp & ? & ? & ? & ? & Er & Et).
+  unfold sock_wf, tx_pending, rx_pending. rewrite Er, Et.
+  repeat split; try apply pq_new_wf; auto.
+Qed.
+
+(* the queue header a socket of this kind stores for a send to [m] *)
+Definition tx_hdr (s : sock) (m : dmeta) : dmeta :=
+  match s with SUdp _ => m | SIcmp _ => icmp_hdr (dm_addr m) | SRaw _ => dm_default end.
+
+(* the record a valid arrival becomes in the receive queue: source endpoint and local
+   (destination) address for udp, source address for icmp *)
+Definition arr_item (a : arrival) : dgram :=
+  match a with
+  | ArrUdp src sp dst pl => (mkDM src sp (Some dst), pl)
+  | ArrIcmp m => (icmp_hdr (im_src m), im_bytes m)
+  | ArrRaw r pl => (dm_default, ip_hdr_sym r ++ pl)
+  end.
+
+Definition op_args_ok (op : sop) : Prop :=
+  match op with
+  | OpSend size _ data => 0 <= size /\ Z.of_nat (length data) = size
+  | OpSendWith mx _ data => 0 <= mx /\ Z.of_nat (length data) <= mx
+  | OpSetHop (Some h) => h <> 0
+  | _ => True
+  end.
+
+Definition recv_rel (pending pending' : list dgram) (rr : rres) (cap : option Z) (consume : bool) : Prop :=
+  match pending with
+  | [] => rr = RR_Err E_Exhausted /\ pending' = []
+  | (m, d) :: rest =>
+      pending' = (if consume then rest else pending) /\
+      match cap with
+      | None => rr = RR_Ok (zlen d) m d
+      | Some c => if c <? zlen d
+                  then rr = RR_Trunc (zlen d) (if consume then Some (m, d) else None)
+                  else rr = RR_Ok (zlen d) m d
+      end
+  end.
+
+Definition step_rel (ev : env) (s : sock) (op : sop) (r : sres) (s' : sock) : Prop :=
+  match op, r with
+  | OpSend _ m d, SR_Code c | OpSendWith _ m d, SR_Code c =>
+      rx_pending s' = rx_pending s /\
+      tx_pending s' = (if c =? 0 then tx_pending s ++ [(tx_hdr s m, d)] else tx_pending s)
+  | OpClose, SR_Unit => tx_pending s' = [] /\ rx_pending s' = []
+  | OpBind _, SR_Code _ | OpSetHop _, SR_Unit =>
+      tx_pending s' = tx_pending s /\ rx_pending s' = rx_pending s
+  | OpRecv, SR_Recv rr => tx_pending s' = tx_pending s /\ recv_rel (rx_pending s) (rx_pending s') rr None true
+  | OpRecvSlice cap, SR_Recv rr => tx_pending s' = tx_pending s /\ recv_rel (rx_pending s) (rx_pending s') rr (Some cap) true
+  | OpPeek, SR_Recv rr => tx_pending s' = tx_pending s /\ recv_rel (rx_pending s) (rx_pending s') rr None false
+  | OpPeekSlice cap, SR_Recv rr => tx_pending s' = tx_pending s /\ recv_rel (rx_pending s) (rx_pending s') rr (Some cap) false
+  | OpProcess a, SR_Process ok =>
+      tx_pending s' = tx_pending s /\
+      rx_pending s' = (if ok then rx_pending s ++ [arr_item a] else rx_pending s)
+  | OpDispatch code, SR_Dispatch taken em c =>
+      rx_pending s' = rx_pending s /\
+      match tx_pending s with
+      | [] => taken = None /\ em = None /\ c = 0 /\ tx_pending s' = []
+      | (h, d) :: rest =>
+          taken = Some (h, d) /\
+          match sock_prepare ev s h d with
+          | None => em = None /\ c = 0 /\ tx_pending s' = rest
+          | Some p => em = Some p /\ c = code /\
+                      tx_pending s' = (if code =? 0 then rest else (h, d) :: rest)
+          end
+      end
+  | _, SR_NA => tx_pending s' = tx_pending s /\ rx_pending s' = rx_pending s
+  | _, _ => False
+  end.
+
+Lemma slice_result_spec : forall cap m d consume,
+  slice_result cap m d consume =
+  if cap <? zlen d then RR_Trunc (zlen d) (if consume then Some (m, d) else None) else RR_Ok (zlen d) m d.
+Proof.
+  intros. unfold slice_result. destruct (cap <? zlen d) eqn:E; [reflexivity|]. bools.
+  rewrite Z.min_r by lia. unfold zlen. rewrite Nat2Z.id, firstn_all. reflexivity.
+Qed.
+
+(* kind-independent views of a socket: replace one queue *)
+Definition sock_set_tx (s : sock) (q : pq) : sock :=
+  match s with SUdp u => SUdp (udp_set_tx u q) | SIcmp i => SIcmp (icmp_set_tx i q) | SRaw r => SRaw (raw_set_tx r q) end.
+Definition sock_set_rx (s : sock) (q : pq) : sock :=
+  match s with SUdp u => SUdp (udp_set_rx u q) | SIcmp i => SIcmp (icmp_set_rx i q) | SRaw r => SRaw (raw_set_rx r q) end.
+
+Lemma set_tx_props : forall s q, sock_tx (sock_set_tx s q) = q /\ sock_rx (sock_set_tx s q) = sock_rx s.
+Proof. destruct s; intros; cbn; auto. Qed.
+Lemma set_rx_props : forall s q, sock_rx (sock_set_rx s q) = q /\ sock_tx (sock_set_rx s q) = sock_tx s.
+Proof. destruct s; intros; cbn; auto. Qed.
+
+(* generic enqueue step on the tx queue *)
+Lemma tx_enqueue_step : forall s size h data,
+  sock_wf s -> 0 <= size -> Z.of_nat (length data) = size ->
+  exists q' b, pq_enqueue (sock_tx s) size h data = Ok (q', b) /\
+    sock_wf (sock_set_tx s q') /\ rx_pending (sock_set_tx s q') = rx_pending s /\
+    tx_pending (sock_set_tx s q') = (if b then tx_pending s ++ [(h, data)] else tx_pending s).
+Proof.
+  intros s size h data (Wr & Wt) Hs Hd.
+  destruct (pq_enqueue_spec (sock_tx s) size h data Wt Hs Hd) as (q' & b & E & R).
+  exists q', b. split; [exact E|].
+  pose proof (set_tx_props s q') as (Et & Er).
+  unfold sock_wf, rx_pending, tx_pending. rewrite Et, Er.
+  destruct b; [destruct R as (W' & P & _)|destruct R as (W' & P & _)]; auto.
+Qed.
+
+Lemma tx_enqueue_with_step : forall s mx h data,
+  sock_wf s -> 0 <= mx -> Z.of_nat (length data) <= mx ->
+  exists q' b, pq_enqueue_with (sock_tx s) mx h data = Ok (q', b) /\
+    sock_wf (sock_set_tx s q') /\ rx_pending (sock_set_tx s q') = rx_pending s /\
+    tx_pending (sock_set_tx s q') = (if b then tx_pending s ++ [(h, data)] else tx_pending s).
+Proof.
+  intros s mx h data (Wr & Wt) Hs Hd.
+  destruct (pq_enqueue_with_spec (sock_tx s) mx h data Wt Hs Hd) as (q' & b & E & R).
+  exists q', b. split; [exact E|].
+  pose proof (set_tx_props s q') as (Et & Er).
+  unfold sock_wf, rx_pending, tx_pending. rewrite Et, Er.
+  destruct b; [destruct R as (W' & P & _)|destruct R as (W' & P & _)]; auto.
+Qed.
+
+Lemma rx_enqueue_step : forall s h data,
+  sock_wf s ->
+  exists q' b, pq_enqueue (sock_rx s) (zlen data) h data = Ok (q', b) /\
+    sock_wf (sock_set_rx s q') /\ tx_pending (sock_set_rx s q') = tx_pending s /\
+    rx_pending (sock_set_rx s q') = (if b then rx_pending s ++ [(h, data)] else rx_pending s).
+Proof.
+  intros s h data (Wr & Wt).
+  destruct (pq_enqueue_spec (sock_rx s) (zlen data) h data Wr ltac:(unfold zlen; lia) eq_refl) as (q' & b & E & R).
+  exists q', b. split; [exact E|].
+  pose proof (set_rx_props s q') as (Er & Et).
+  unfold sock_wf, rx_pending, tx_pending. rewrite Et, Er.
+  destruct b; [destruct R as (W' & P & _)|destruct R as (W' & P & _)]; auto.
+Qed.
+
+Lemma rx_dequeue_step : forall s, sock_wf s ->
+  exists q' r, pq_dequeue (sock_rx s) = Ok (q', r) /\
+    sock_wf (sock_set_rx s q') /\ tx_pending (sock_set_rx s q') = tx_pending s /\
+    match r with
+    | None => rx_pending s = [] /\ rx_pending (sock_set_rx s q') = []
+    | Some x => rx_pending s = x :: rx_pending (sock_set_rx s q')
+    end.
+Proof.
+  intros s (Wr & Wt).
+  destruct (pq_dequeue_spec (sock_rx s) Wr) as (q' & r & E & W' & _ & _ & R).
+  exists q', r. split; [exact E|].
+  pose proof (set_rx_props s q') as (Er & Et).
+  unfold sock_wf, rx_pending, tx_pending. rewrite Et, Er. auto.
+Qed.
+
+Lemma rx_peek_step : forall s, sock_wf s ->
+  exists q' r, pq_peek (sock_rx s) = Ok (q', r) /\
+    sock_wf (sock_set_rx s q') /\ tx_pending (sock_set_rx s q') = tx_pending s /\
+    rx_pending (sock_set_rx s q') = rx_pending s /\
+    match r with
+    | None => rx_pending s = []
+    | Some x => exists rest, rx_pending s = x :: rest
+    end.
+Proof.
+  intros s (Wr & Wt).
+  destruct (pq_peek_spec (sock_rx s) Wr) as (q' & r & E & (W' & P & _) & R).
+  exists q', r. split; [exact E|].
+  pose proof (set_rx_props s q') as (Er & Et).
+  unfold sock_wf, rx_pending, tx_pending. rewrite Et, Er. auto.
+Qed.
+
+Lemma dispatch_step : forall ev s code, sock_wf s ->
+  exists s' em c, sock_dispatch ev s (log_emit code) None = Ok (s', em, c) /\
+    sock_wf s' /\ step_rel ev s (OpDispatch code) (SR_Dispatch (sock_tx_head s) em c) s'.
+Proof.
+  intros ev s code (Wr & Wt).
+  assert (G : forall (f : dmeta -> list Z -> option ippacket),
+     (forall h d, f h d = sock_prepare ev s h d) ->
+     exists q' em r,
+       pq_dequeue_with (sock_tx s)
+         (fun m b e => match f m b with None => Ok (e, EMIT_OK) | Some p => log_emit code p e end) None
+       = Ok (q', em, r) /\
+       sock_wf (sock_set_tx s q') /\
+       step_rel ev s (OpDispatch code)
+         (SR_Dispatch (sock_tx_head s) em (match r with None => EMIT_OK | Some c => c end)) (sock_set_tx s q')).
+  { intros f Hf.
+    pose proof (pq_dequeue_with_spec _ (sock_tx s)
+      (fun m b e => match f m b with None => Ok (e, EMIT_OK) | Some p => log_emit code p e end) None Wt) as D.
+    pose proof (set_tx_props s) as SP.
+    unfold step_rel, sock_tx_head, tx_pending, rx_pending, sock_wf.
+    destruct (pq_packets (sock_tx s)) as [|[h d] rest] eqn:EP.
+    - destruct D as (q' & E & (W' & P & _)). exists q', None, None. split; [exact E|].
+      destruct (SP q') as (-> & ->). rewrite P. splits; auto.
+    - rewrite Hf in D. destruct (sock_prepare ev s h d) as [p|] eqn:EPrep.
+      + unfold log_emit in D. destruct D as (q' & E & W' & _ & _ & P).
+        exists q', (Some p), (Some code). split; [exact E|].
+        destruct (SP q') as (-> & ->). rewrite P. splits; auto.
+      + destruct D as (q' & E & W' & _ & _ & P).
+        exists q', None, (Some EMIT_OK). split; [exact E|].
+        destruct (SP q') as (-> & ->). rewrite P. cbn. splits; auto. }
+  destruct s as [u|i|r]; unfold sock_dispatch, udp_dispatch, icmp_dispatch, raw_dispatch.
+  - destruct (G (udp_dispatch_packet ev u) ltac:(reflexivity)) as (q' & em & r & E & W' & R).
+    cbn [sock_tx] in E. rewrite E. cbn. eexists _, _, _. split; [reflexivity|]. split; [exact W'|exact R].
+  - destruct (G (icmp_dispatch_packet ev i) ltac:(reflexivity)) as (q' & em & r & E & W' & R).
+    cbn [sock_tx] in E. rewrite E. cbn. eexists _, _, _. split; [reflexivity|]. split; [exact W'|exact R].
+  - destruct (G (fun _ b => raw_dispatch_packet r b) ltac:(reflexivity)) as (q' & em & r0 & E & W' & R).
+    cbn [sock_tx] in E. rewrite E. cbn. eexists _, _, _. split; [reflexivity|]. split; [exact W'|exact R].
+Qed.
+
+Ltac finish_step :=
+  eexists _, _; split; [reflexivity|]; split; [assumption|];
+  unfold step_rel, recv_rel; auto.
+
+Lemma sock_step_spec : forall ev s op, sock_wf s -> op_args_ok op ->
+  exists s' r, sock_step ev s op = Ok (s', r) /\ sock_wf s' /\ step_rel ev s op r s'.
+Proof.
+  intros ev s op W A.
+  assert (Same : forall s0, tx_pending s0 = tx_pending s0 /\ rx_pending s0 = rx_pending s0) by auto.
+  destruct op as [b| |h|size m data|mx m data| |cap| |cap|a|code].
+  - (* bind *)
+    destruct b as [a p|e]; destruct s as [u|i|r]; cbn [sock_step];
+      try (eexists _, _; split; [reflexivity|]; split; [exact W|]; cbn; auto).
+    + unfold udp_bind. destruct (p =? 0); [|destruct (udp_is_open u)];
+        (eexists _, _; split; [reflexivity|]; split; [exact W|]; cbn; auto).
+    + unfold icmp_bind. destruct (negb (icmp_ep_is_specified e)); [|destruct (icmp_is_open i)];
+        (eexists _, _; split; [reflexivity|]; split; [exact W|]; cbn; auto).
+  - (* close *)
+    destruct s as [u|i|r]; cbn [sock_step];
+      try (eexists _, _; split; [reflexivity|]; split; [exact W|]; cbn; auto).
+    destruct W as (Wr & Wt). cbn in Wr, Wt.
+    eexists _, _; split; [reflexivity|]. split.
+    + split; cbn; apply pq_reset_wf; auto.
+    + cbn. auto.
+  - (* set_hop_limit *)
+    destruct s as [u|i|r]; cbn [sock_step];
+      try (eexists _, _; split; [reflexivity|]; split; [exact W|]; cbn; auto).
+    + unfold udp_set_hop_limit. destruct h as [[|p|p]|]; cbn in A; try lia;
+        (eexists _, _; split; [reflexivity|]; split; [exact W|]; cbn; auto).
+    + unfold icmp_set_hop_limit. destruct h as [[|p|p]|]; cbn in A; try lia;
+        (eexists _, _; split; [reflexivity|]; split; [exact W|]; cbn; auto).
+  - (* send *)
+    destruct A as (A1 & A2).
+    destruct s as [u|i|r]; cbn [sock_step].
+    + unfold udp_send. destruct (negb (udp_send_checks u m =? E_OK)) eqn:E; cbn.
+      * eexists _, _; split; [reflexivity|]; split; [exact W|]. cbn. bools.
+        destruct (udp_send_checks u m =? 0) eqn:E2; [bools; unfold E_OK in *; lia|auto].
+      * destruct (tx_enqueue_step (SUdp u) size m data W A1 A2) as (q' & b & Eq & W' & Rx & Tx); cbn [sock_set_tx sock_set_rx] in W', Rx, Tx.
+        cbn [sock_tx] in Eq. rewrite Eq. cbn.
+        eexists _, _; split; [reflexivity|]; split; [exact W'|]. cbn [step_rel tx_hdr].
+        split; [exact Rx|]. rewrite Tx. destruct b; reflexivity.
+    + unfold icmp_send. destruct (addr_is_unspecified (dm_addr m)) eqn:E; cbn.
+      * eexists _, _; split; [reflexivity|]; split; [exact W|]. cbn. auto.
+      * destruct (tx_enqueue_step (SIcmp i) size (icmp_hdr (dm_addr m)) data W A1 A2) as (q' & b & Eq & W' & Rx & Tx); cbn [sock_set_tx sock_set_rx] in W', Rx, Tx.
+        cbn [sock_tx] in Eq. rewrite Eq. cbn.
+        eexists _, _; split; [reflexivity|]; split; [exact W'|]. cbn [step_rel tx_hdr].
+        split; [exact Rx|]. rewrite Tx. destruct b; reflexivity.
+    + unfold raw_send.
+      destruct (tx_enqueue_step (SRaw r) size dm_default data W A1 A2) as (q' & b & Eq & W' & Rx & Tx); cbn [sock_set_tx sock_set_rx] in W', Rx, Tx.
+      cbn [sock_tx] in Eq. rewrite Eq. cbn.
+      eexists _, _; split; [reflexivity|]; split; [exact W'|]. cbn [step_rel tx_hdr].
+      split; [exact Rx|]. rewrite Tx. destruct b; reflexivity.
+  - (* send_with *)
+    destruct A as (A1 & A2).
+    destruct s as [u|i|r]; cbn [sock_step].
+    + unfold udp_send_with. destruct (negb (udp_send_checks u m =? E_OK)) eqn:E; cbn.
+      * eexists _, _; split; [reflexivity|]; split; [exact W|]. cbn. bools.
+        destruct (udp_send_checks u m =? 0) eqn:E2; [bools; unfold E_OK in *; lia|auto].
+      * destruct (tx_enqueue_with_step (SUdp u) mx m data W A1 A2) as (q' & b & Eq & W' & Rx & Tx); cbn [sock_set_tx sock_set_rx] in W', Rx, Tx.
+        cbn [sock_tx] in Eq. rewrite Eq. cbn.
+        eexists _, _; split; [reflexivity|]; split; [exact W'|]. cbn [step_rel tx_hdr].
+        split; [exact Rx|]. rewrite Tx. destruct b; reflexivity.
+    + unfold icmp_send_with. destruct (addr_is_unspecified (dm_addr m)) eqn:E; cbn.
+      * eexists _, _; split; [reflexivity|]; split; [exact W|]. cbn. auto.
+      * destruct (tx_enqueue_with_step (SIcmp i) mx (icmp_hdr (dm_addr m)) data W A1 A2) as (q' & b & Eq & W' & Rx & Tx); cbn [sock_set_tx sock_set_rx] in W', Rx, Tx.
+        cbn [sock_tx] in Eq. rewrite Eq. cbn.
+        eexists _, _; split; [reflexivity|]; split; [exact W'|]. cbn [step_rel tx_hdr].
+        split; [exact Rx|]. rewrite Tx. destruct b; reflexivity.
+    + unfold raw_send_with.
+      destruct (tx_enqueue_with_step (SRaw r) mx dm_default data W A1 A2) as (q' & b & Eq & W' & Rx & Tx); cbn [sock_set_tx sock_set_rx] in W', Rx, Tx.
+      cbn [sock_tx] in Eq. rewrite Eq. cbn.
+      eexists _, _; split; [reflexivity|]; split; [exact W'|]. cbn [step_rel tx_hdr].
+      split; [exact Rx|]. rewrite Tx. destruct b; reflexivity.
+  - (* recv *)
+    destruct (rx_dequeue_step s W) as (q' & r & Eq & W' & Tx & R).
+    destruct s as [u|i|r0]; cbn [sock_set_rx] in W', Tx, R; cbn [sock_step]; unfold udp_recv, icmp_recv, raw_recv;
+      cbn [sock_rx] in Eq; rewrite Eq; cbn;
+      (destruct r as [[m d]|]; cbn;
+       [ eexists _, _; split; [reflexivity|]; split; [exact W'|]; cbn [step_rel]; split; [exact Tx|];
+         unfold recv_rel; rewrite R; auto
+       | destruct R as (R1 & R2); eexists _, _; split; [reflexivity|]; split; [exact W'|]; cbn [step_rel];
+         split; [exact Tx|]; unfold recv_rel; rewrite R1; auto ]).
+  - (* recv_slice *)
+    destruct (rx_dequeue_step s W) as (q' & r & Eq & W' & Tx & R).
+    destruct s as [u|i|r0]; cbn [sock_set_rx] in W', Tx, R; cbn [sock_step]; unfold udp_recv_slice, icmp_recv_slice, raw_recv_slice;
+      cbn [sock_rx] in Eq; rewrite Eq; cbn;
+      (destruct r as [[m d]|]; cbn;
+       [ eexists _, _; split; [reflexivity|]; split; [exact W'|]; cbn [step_rel]; split; [exact Tx|];
+         unfold recv_rel; rewrite R; rewrite slice_result_spec; destruct (cap <? zlen d); auto
+       | destruct R as (R1 & R2); eexists _, _; split; [reflexivity|]; split; [exact W'|]; cbn [step_rel];
+         split; [exact Tx|]; unfold recv_rel; rewrite R1; auto ]).
+  - (* peek *)
+    destruct s as [u|i|r0]; cbn [sock_step];
+      try (eexists _, _; split; [reflexivity|]; split; [exact W|]; cbn; auto).
+    + destruct (rx_peek_step (SUdp u) W) as (q' & r & Eq & W' & Tx & Rx & R); cbn [sock_set_tx sock_set_rx] in W', Rx, Tx.
+      unfold udp_peek. cbn [sock_rx] in Eq. rewrite Eq. cbn.
+      destruct r as [[m d]|]; cbn;
+        (eexists _, _; split; [reflexivity|]; split; [exact W'|]; cbn [step_rel]; split; [exact Tx|];
+         unfold recv_rel; rewrite Rx).
+      * destruct R as (rest & ->). auto.
+      * rewrite R. auto.
+    + destruct (rx_peek_step (SRaw r0) W) as (q' & r & Eq & W' & Tx & Rx & R); cbn [sock_set_tx sock_set_rx] in W', Rx, Tx.
+      unfold raw_peek. cbn [sock_rx] in Eq. rewrite Eq. cbn.
+      destruct r as [[m d]|]; cbn;
+        (eexists _, _; split; [reflexivity|]; split; [exact W'|]; cbn [step_rel]; split; [exact Tx|];
+         unfold recv_rel; rewrite Rx).
+      * destruct R as (rest & ->). auto.
+      * rewrite R. auto.
+  - (* peek_slice *)
+    destruct s as [u|i|r0]; cbn [sock_step];
+      try (eexists _, _; split; [reflexivity|]; split; [exact W|]; cbn; auto).
+    + destruct (rx_peek_step (SUdp u) W) as (q' & r & Eq & W' & Tx & Rx & R); cbn [sock_set_tx sock_set_rx] in W', Rx, Tx.
+      unfold udp_peek_slice. cbn [sock_rx] in Eq. rewrite Eq. cbn.
+      destruct r as [[m d]|]; cbn;
+        (eexists _, _; split; [reflexivity|]; split; [exact W'|]; cbn [step_rel]; split; [exact Tx|];
+         unfold recv_rel; rewrite Rx).
+      * destruct R as (rest & ->). rewrite slice_result_spec. destruct (cap <? zlen d); auto.
+      * rewrite R. auto.
+    + destruct (rx_peek_step (SRaw r0) W) as (q' & r & Eq & W' & Tx & Rx & R); cbn [sock_set_tx sock_set_rx] in W', Rx, Tx.
+      unfold raw_peek_slice. cbn [sock_rx] in Eq. rewrite Eq. cbn.
+      destruct r as [[m d]|]; cbn;
+        (eexists _, _; split; [reflexivity|]; split; [exact W'|]; cbn [step_rel]; split; [exact Tx|];
+         unfold recv_rel; rewrite Rx).
+      * destruct R as (rest & ->). rewrite slice_result_spec. destruct (cap <? zlen d); auto.
+      * rewrite R. auto.
+  - (* process *)
+    destruct a as [src sp dst pl|im|ir pl]; destruct s as [u|i|r0]; cbn [sock_step];
+      try (eexists _, _; split; [reflexivity|]; split; [exact W|]; cbn; auto).
+    + destruct (rx_enqueue_step (SUdp u) (mkDM src sp (Some dst)) pl W) as (q' & b & Eq & W' & Tx & Rx); cbn [sock_set_tx sock_set_rx] in W', Rx, Tx.
+      unfold udp_process. cbn [sock_rx] in Eq. rewrite Eq. cbn.
+      eexists _, _; split; [reflexivity|]; split; [exact W'|]. cbn [step_rel arr_item]. split; [exact Tx|].
+      rewrite Rx. destruct b; reflexivity.
+    + destruct (rx_enqueue_step (SIcmp i) (icmp_hdr (im_src im)) (im_bytes im) W) as (q' & b & Eq & W' & Tx & Rx); cbn [sock_set_tx sock_set_rx] in W', Rx, Tx.
+      unfold icmp_process. cbn [sock_rx] in Eq. rewrite Eq. cbn.
+      eexists _, _; split; [reflexivity|]; split; [exact W'|]. cbn [step_rel arr_item]. split; [exact Tx|].
+      rewrite Rx. destruct b; reflexivity.
+    + destruct (rx_enqueue_step (SRaw r0) dm_default (ip_hdr_sym ir ++ pl) W) as (q' & b & Eq & W' & Tx & Rx); cbn [sock_set_tx sock_set_rx] in W', Rx, Tx.
+      unfold raw_process.
+      assert (HL : ip_header_len (ir_ver ir) + zlen pl = zlen (ip_hdr_sym ir ++ pl)).
+      { unfold zlen, ip_hdr_sym. rewrite !app_length, repeat_length. cbn [length].
+        unfold ip_header_len. destruct (ir_ver ir =? 4);
+          [pose proof (eq_refl : wipv4_HEADER_LEN = 20)|pose proof (eq_refl : wipv6_HEADER_LEN = 40)]; lia. }
+      rewrite HL. cbn [sock_rx] in Eq. rewrite Eq. cbn.
+      eexists _, _; split; [reflexivity|]; split; [exact W'|]. cbn [step_rel arr_item]. split; [exact Tx|].
+      rewrite Rx. destruct b; reflexivity.
+  - (* dispatch *)
+    destruct (dispatch_step ev s code W) as (s' & em & c & E & W' & R).
+    cbn [sock_step]. destruct s; rewrite E; cbn; eexists _, _; (split; [reflexivity|]); split; assumption.
+Qed.
+
+(* ------------------------------------------------------------------ *)
+(* Part C: histories                                                   *)
+(* ------------------------------------------------------------------ *)
+Lemma sock_dispatch_kind : forall (E : Type) ev s (emit : ippacket -> E -> outcome (E * Z)) e s' e' c,
+  sock_dispatch ev s emit e = Ok (s', e', c) -> sock_kind s' = sock_kind s.
+Proof.
+  intros E ev s emit e s' e' c H. destruct s; cbn [sock_dispatch] in H;
+    match type of H with obind ?x _ = _ => destruct x as [[[? ?] ?]| |]; cbn [obind] in H; [|discriminate H..] end;
+    inversion H; subst; reflexivity.
+Qed.
+
+Lemma sock_step_kind : forall ev s op s' r,
+  sock_step ev s op = Ok (s', r) -> sock_kind s' = sock_kind s.
+Proof.
+  intros ev s op s' r H.
+  destruct op as [b| |h|size m data|mx m data| |cap| |cap|a|code].
+  11:{ cbn [sock_step] in H.
+       assert (G : forall x, (do '(s1, em, c) <- x; Ok (s1, SR_Dispatch (sock_tx_head s) em c)) = Ok (s', r) ->
+                     exists em c, x = Ok (s', em, c)).
+       { intros x Hx. destruct x as [[[s1 em] c]| |]; cbn in Hx; try discriminate. inversion Hx; subst. eauto. }
+       destruct s; apply G in H; destruct H as (em & c & H); eapply sock_dispatch_kind; eauto. }
+  all: try destruct b; try destruct a; destruct s; cbn [sock_step] in H;
+    repeat match goal with
+    | H : obind ?x _ = Ok _ |- _ =>
+        let p := fresh "p" in destruct x as [p| |]; cbn [obind] in H; [|discriminate H..];
+        repeat (let a := fresh in let b := fresh in destruct p as [a b])
+    | H : (let '(_, _) := ?x in _) = Ok _ |- _ => destruct x
+    end;
+    try (inversion H; subst; reflexivity).
+Qed.
+
+Lemma tx_hdr_kind : forall s s', sock_kind s' = sock_kind s -> tx_hdr s' = tx_hdr s.
+Proof. destruct s, s'; cbn; intros; try discriminate; reflexivity. Qed.
+
+Definition evt : Type := (sop * sres)%type.
+
+(* ghost transmit history since the last close: (accepted by send, taken out by dispatch) *)
+Definition ghost_tx_step (hdr : dmeta -> dmeta) (g : list dgram * list dgram) (e : evt) : list dgram * list dgram :=
+  match e with
+  | (OpClose, SR_Unit) => ([], [])
+  | (OpSend _ m d, SR_Code c) | (OpSendWith _ m d, SR_Code c) =>
+      if c =? 0 then (fst g ++ [(hdr m, d)], snd g) else g
+  | (OpDispatch _, SR_Dispatch (Some it) _ c) => if c =? 0 then (fst g, snd g ++ [it]) else g
+  | _ => g
+  end.
+
+(* ghost receive history since the last close: (stored by process, handed out / dropped by recv) *)
+Definition ghost_rx_step (g : list dgram * list dgram) (e : evt) : list dgram * list dgram :=
+  match e with
+  | (OpClose, SR_Unit) => ([], [])
+  | (OpProcess a, SR_Process true) => (fst g ++ [arr_item a], snd g)
+  | (OpRecv, SR_Recv (RR_Ok _ m d)) | (OpRecvSlice _, SR_Recv (RR_Ok _ m d)) => (fst g, snd g ++ [(m, d)])
+  | (OpRecvSlice _, SR_Recv (RR_Trunc _ (Some x))) => (fst g, snd g ++ [x])
+  | _ => g
+  end.
+
+Definition ghost_tx (hdr : dmeta -> dmeta) (l : list evt) := fold_left (ghost_tx_step hdr) l ([], []).
+Definition ghost_rx (l : list evt) := fold_left ghost_rx_step l ([], []).
+
+(* the packet handed to the emit callback carries the queued datagram unmodified *)
+Definition pkt_faithful (kind : Z) (h : dmeta) (d : list Z) (p : ippacket) : Prop :=
+  p_kind p = kind /\
+  match kind with
+  | 1 =>
+    p_payload p = d /\ p_dst p = dm_addr h /\ p_dport p = dm_port h /\ p_proto p = PROTO_UDP /\
+    p_iplen p = wudp_HEADER_LEN + zlen d /\ (forall a, dm_local h = Some a -> p_src p = a)
+  | 2 =>
+    p_payload p = d /\ p_dst p = dm_addr h /\ p_iplen p = zlen d
+  | _ =>
+    exists ver, nth 0 d 0 = ver /\
+    p_payload p = firstn (Z.to_nat (nth 5 d 0)) (skipn (Z.to_nat (ip_header_len ver)) d) /\
+    p_src p = mkA ver (nth 3 d 0) /\ p_dst p = mkA ver (nth 4 d 0) /\
+    p_proto p = nth 1 d 0 /\ p_hop p = nth 2 d 0 /\ p_iplen p = nth 5 d 0 /\
+    ip_header_len ver + p_iplen p <= zlen d
+  end.
+
+Lemma prepare_faithful : forall ev s h d p,
+  sock_prepare ev s h d = Some p -> pkt_faithful (sock_kind s) h d p.
+Proof.
+  intros ev s h d p H. destruct s as [u|i|r]; cbn in H |- *; unfold pkt_faithful; cbn.
+  - unfold udp_dispatch_packet in H.
+    destruct (dm_local h) as [a|] eqn:El.
+    + destruct (negb (a_ver a =? a_ver (dm_addr h))); [discriminate|]. inversion H; subst; cbn.
+      splits; auto; try (intros; congruence).
+    + destruct (match u_addr u with Some a => Some a | None => env_get_source_address ev (dm_addr h) end) as [a|];
+        [|discriminate].
+      destruct (negb (a_ver a =? a_ver (dm_addr h))); [discriminate|]. inversion H; subst; cbn.
+      splits; auto; try (intros; discriminate).
+  - unfold icmp_dispatch_packet in H.
+    destruct (a_ver (dm_addr h) =? 4).
+    + destruct (e_src_v4 ev (dm_addr h)); [|discriminate].
+      destruct (icmp_tx_parses 4 d); [|discriminate]. inversion H; subst; cbn. auto.
+    + destruct (icmp_tx_parses 6 d); [|discriminate]. inversion H; subst; cbn. auto.
+  - unfold raw_dispatch_packet in H. destruct d as [|ver rest]; [discriminate|].
+    destruct ((ver =? 4) || (ver =? 6)); [|discriminate].
+    destruct (zlen (ver :: rest) <? ip_header_len ver) eqn:E1; [discriminate|].
+    destruct (zlen (ver :: rest) <? ip_header_len ver + nth 5 (ver :: rest) 0) eqn:E2; [discriminate|].
+    destruct (opt_z_differs (r_proto r) (nth 1 (ver :: rest) 0)); [discriminate|].
+    destruct (nth 4 (ver :: rest) 0 =? 0); [discriminate|].
+    inversion H; subst; cbn [p_kind p_payload p_src p_dst p_proto p_hop p_iplen]. bools.
+    split; [reflexivity|]. exists ver. splits; auto.
+Qed.
+
+(* what one event of a run guarantees by itself *)
+Definition evt_local (kind : Z) (e : evt) : Prop :=
+  match e with
+  | (OpDispatch code, SR_Dispatch taken em c) =>
+      match em with
+      | Some p => exists h d, taken = Some (h, d) /\ pkt_faithful kind h d p /\ c = code
+      | None => c = 0
+      end
+  | (OpRecv, SR_Recv rr) | (OpPeek, SR_Recv rr) =>
+      match rr with RR_Ok n m d => n = zlen d | RR_Trunc _ _ => False | RR_Err e => e = E_Exhausted end
+  | (OpRecvSlice cap, SR_Recv rr) =>
+      match rr with
+      | RR_Ok n m d => n = zlen d /\ zlen d <= cap
+      | RR_Trunc sz x => cap < sz /\ exists m d, x = Some (m, d) /\ sz = zlen d
+      | RR_Err e => e = E_Exhausted
+      end
+  | (OpPeekSlice cap, SR_Recv rr) =>
+      match rr with
+      | RR_Ok n m d => n = zlen d /\ zlen d <= cap
+      | RR_Trunc sz x => cap < sz /\ x = None
+      | RR_Err e => e = E_Exhausted
+      end
+  | _ => True
+  end.
+
+Lemma step_rel_local : forall ev s op r s',
+  step_rel ev s op r s' -> evt_local (sock_kind s) (op, r).
+Proof.
+  intros ev s op r s' R. destruct op, r; cbn in R |- *; try exact I; try contradiction.
+  - destruct R as (_ & R). unfold recv_rel in R. destruct (rx_pending s) as [|[m d] rest].
+    + destruct R as (-> & _). reflexivity.
+    + destruct R as (_ & ->). reflexivity.
+  - destruct R as (_ & R). unfold recv_rel in R. destruct (rx_pending s) as [|[m d] rest].
+    + destruct R as (-> & _). reflexivity.
+    + destruct R as (_ & R). destruct (cap <? zlen d) eqn:E; subst r; bools.
+      * split; [lia|]. eauto.
+      * split; [reflexivity|lia].
+  - destruct R as (_ & R). unfold recv_rel in R. destruct (rx_pending s) as [|[m d] rest].
+    + destruct R as (-> & _). reflexivity.
+    + destruct R as (_ & ->). reflexivity.
+  - destruct R as (_ & R). unfold recv_rel in R. destruct (rx_pending s) as [|[m d] rest].
+    + destruct R as (-> & _). reflexivity.
+    + destruct R as (_ & R). destruct (cap <? zlen d) eqn:E; subst r; bools.
+      * split; [lia|reflexivity].
+      * split; [reflexivity|lia].
+  - destruct R as (_ & R). destruct (tx_pending s) as [|[h d] rest].
+    + destruct R as (-> & -> & -> & _). reflexivity.
+    + destruct R as (-> & R). destruct (sock_prepare ev s h d) as [p|] eqn:EP.
+      * destruct R as (-> & -> & _). exists h, d. splits; auto. eapply prepare_faithful; eauto.
+      * destruct R as (-> & -> & _). reflexivity.
+Qed.
+
+Lemma ghost_tx_step_inv : forall ev s op r s' A C,
+  step_rel ev s op r s' -> A = C ++ tx_pending s ->
+  let '(A', C') := ghost_tx_step (tx_hdr s) (A, C) (op, r) in A' = C' ++ tx_pending s'.
+Proof.
+  intros ev s op r s' A C R I.
+  destruct op, r; cbn in R |- *; try contradiction;
+    try (destruct R as (R1 & R2); try rewrite R1; try rewrite R2; assumption).
+  - destruct R as (R1 & _). rewrite R1. reflexivity.
+  - destruct R as (_ & R). rewrite R. destruct (e =? 0); cbn; [rewrite I, app_assoc; reflexivity|assumption].
+  - destruct R as (_ & R). rewrite R. destruct (e =? 0); cbn; [rewrite I, app_assoc; reflexivity|assumption].
+  - destruct R as (_ & R). destruct (tx_pending s) as [|[h d] rest].
+    + destruct R as (-> & _ & _ & ->). assumption.
+    + destruct R as (-> & R). destruct (sock_prepare ev s h d).
+      * destruct R as (_ & -> & ->). destruct (emit_result =? 0); cbn; [rewrite I, <- app_assoc; reflexivity|assumption].
+      * destruct R as (_ & -> & ->). change (0 =? 0) with true. cbn. rewrite I, <- app_assoc. reflexivity.
+Qed.
+
+Lemma ghost_rx_step_inv : forall ev s op r s' A C,
+  step_rel ev s op r s' -> A = C ++ rx_pending s ->
+  let '(A', C') := ghost_rx_step (A, C) (op, r) in A' = C' ++ rx_pending s'.
+Proof.
+  intros ev s op r s' A C R I.
+  destruct op, r; cbn in R |- *; try contradiction;
+    try (destruct R as (R1 & R2); try rewrite R1; try rewrite R2; assumption).
+  - destruct R as (_ & R2). rewrite R2. reflexivity.
+  - destruct R as (_ & R). unfold recv_rel in R. destruct (rx_pending s) as [|[m d] rest].
+    + destruct R as (-> & ->). assumption.
+    + destruct R as (-> & ->). cbn. rewrite I, <- app_assoc. reflexivity.
+  - destruct R as (_ & R). unfold recv_rel in R. destruct (rx_pending s) as [|[m d] rest].
+    + destruct R as (-> & ->). assumption.
+    + destruct R as (-> & R). destruct (cap <? zlen d); subst r; cbn; rewrite I, <- app_assoc; reflexivity.
+  - destruct R as (_ & R). unfold recv_rel in R. destruct (rx_pending s) as [|[m d] rest].
+    + destruct R as (-> & ->). assumption.
+    + destruct R as (-> & ->). assumption.
+  - destruct R as (_ & R). unfold recv_rel in R. destruct (rx_pending s) as [|[m d] rest].
+    + destruct R as (-> & ->). assumption.
+    + destruct R as (-> & R). destruct (cap <? zlen d); subst r; cbn; assumption.
+  - destruct R as (_ & R). rewrite R. destruct stored; cbn; [rewrite I, app_assoc; reflexivity|assumption].
+Qed.
+
+Lemma fold_left_cons' : forall (A B : Type) (f : A -> B -> A) x l a,
+  fold_left f (x :: l) a = fold_left f l (f a x).
+Proof. reflexivity. Qed.
+
+Lemma sock_run_spec : forall ev ops s, sock_wf s -> Forall op_args_ok ops ->
+  exists s' rs, sock_run ev s ops = Ok (s', rs) /\ sock_wf s' /\ length rs = length ops /\
+    sock_kind s' = sock_kind s /\
+    Forall (evt_local (sock_kind s)) (combine ops rs) /\
+    (forall A C, A = C ++ tx_pending s ->
+       let '(A', C') := fold_left (ghost_tx_step (tx_hdr s)) (combine ops rs) (A, C) in
+       A' = C' ++ tx_pending s') /\
+    (forall A C, A = C ++ rx_pending s ->
+       let '(A', C') := fold_left ghost_rx_step (combine ops rs) (A, C) in
+       A' = C' ++ rx_pending s').
+Proof.
+  intros ev ops; induction ops as [|op ops IH]; intros s W F.
+  - exists s, []. cbn. splits; auto.
+  - inversion F as [|? ? Aop Fops]; subst.
+    destruct (sock_step_spec ev s op W Aop) as (s1 & r & E1 & W1 & R1).
+    pose proof (sock_step_kind _ _ _ _ _ E1) as K1.
+    destruct (IH s1 W1 Fops) as (s2 & rs & E2 & W2 & L2 & K2 & Loc & GT & GR).
+    assert (Erun : sock_run ev s (op :: ops) = Ok (s2, r :: rs)).
+    { cbn [sock_run]. rewrite E1. cbn [obind]. rewrite E2. reflexivity. }
+    exists s2, (r :: rs).
+    split; [exact Erun|]. split; [exact W2|]. split; [cbn [length]; congruence|]. split; [congruence|].
+    split; [|split].
+    + constructor.
+      * eapply step_rel_local; eauto.
+      * rewrite <- K1. exact Loc.
+    + intros A C I. change (combine (op :: ops) (r :: rs)) with ((op, r) :: combine ops rs). rewrite fold_left_cons'.
+      pose proof (ghost_tx_step_inv ev s op r s1 A C R1 I) as G1.
+      destruct (ghost_tx_step (tx_hdr s) (A, C) (op, r)) as [A1 C1].
+      specialize (GT A1 C1 G1). rewrite (tx_hdr_kind s s1 K1) in GT. exact GT.
+    + intros A C I. change (combine (op :: ops) (r :: rs)) with ((op, r) :: combine ops rs). rewrite fold_left_cons'.
+      pose proof (ghost_rx_step_inv ev s op r s1 A C R1 I) as G1.
+      destruct (ghost_rx_step (A, C) (op, r)) as [A1 C1].
+      exact (GR A1 C1 G1).
+Qed.
+
+(* ---- the property theorems ---- *)
+
+(* never panics *)
+Theorem c09_no_panic : forall ev s ops,
+  sock_is_new s -> Forall op_args_ok ops -> is_panic (sock_run ev s ops) = false.
+Proof.
+  intros ev s ops N F. destruct (sock_is_new_wf s N) as (W & _).
+  destruct (sock_run_spec ev ops s W F) as (s' & rs & E & _). rewrite E. reflexivity.
+Qed.
+
+Theorem c09_tx_at_most_once_in_order_unmodified : forall ev s ops s' rs,
+  sock_is_new s -> Forall op_args_ok ops -> sock_run ev s ops = Ok (s', rs) ->
+  let '(accepted, taken) := ghost_tx (tx_hdr s) (combine ops rs) in
+  accepted = taken ++ tx_pending s' /\
+  Forall (evt_local (sock_kind s)) (combine ops rs).
+Proof.
+  intros ev s ops s' rs N F E. destruct (sock_is_new_wf s N) as (W & T0 & R0).
+  destruct (sock_run_spec ev ops s W F) as (s2 & rs2 & E2 & _ & _ & _ & Loc & GT & _).
+  rewrite E in E2. inversion E2; subst s2 rs2.
+  specialize (GT [] [] ltac:(rewrite T0; reflexivity)). unfold ghost_tx.
+  destruct (fold_left (ghost_tx_step (tx_hdr s)) (combine ops rs) ([], [])) as [A C]. auto.
+Qed.
+
+Theorem c09_rx_exactly_once_whole_or_not_at_all : forall ev s ops s' rs,
+  sock_is_new s -> Forall op_args_ok ops -> sock_run ev s ops = Ok (s', rs) ->
+  let '(stored, consumed) := ghost_rx (combine ops rs) in
+  stored = consumed ++ rx_pending s' /\
+  Forall (evt_local (sock_kind s)) (combine ops rs).
+Proof.
+  intros ev s ops s' rs N F E. destruct (sock_is_new_wf s N) as (W & T0 & R0).
+  destruct (sock_run_spec ev ops s W F) as (s2 & rs2 & E2 & _ & _ & _ & Loc & _ & GR).
+  rewrite E in E2. inversion E2; subst s2 rs2.
+  specialize (GR [] [] ltac:(rewrite R0; reflexivity)). unfold ghost_rx.
+  destruct (fold_left ghost_rx_step (combine ops rs) ([], [])) as [A C]. auto.
+Qed.
+
+Theorem c09_reachable_wf : forall ev s ops s' rs,
+  sock_is_new s -> Forall op_args_ok ops -> sock_run ev s ops = Ok (s', rs) -> sock_wf s'.
+Proof.
+  intros ev s ops s' rs N F E. destruct (sock_is_new_wf s N) as (W & _).
+  destruct (sock_run_spec ev ops s W F) as (s2 & rs2 & E2 & W2 & _).
+  rewrite E in E2. inversion E2; subst. exact W2.
+Qed.
+
+Lemma sock_dispatch_prepare : forall (E : Type) ev s (emit : ippacket -> E -> outcome (E * Z)) e s' e' c,
+  sock_dispatch ev s emit e = Ok (s', e', c) ->
+  forall h d, sock_prepare ev s' h d = sock_prepare ev s h d.
+Proof.
+  intros E ev s emit e s' e' c H h d. destruct s; cbn [sock_dispatch] in H;
+    match type of H with obind ?x _ = _ => destruct x as [[[? ?] ?]| |] eqn:EX; cbn [obind] in H; [|discriminate H..] end;
+    inversion H; subst; clear H.
+  - unfold udp_dispatch in EX.
+    match type of EX with obind ?x _ = _ => destruct x as [[[? ?] ?]| |]; cbn [obind] in EX; [|discriminate EX..] end.
+    inversion EX; subst. reflexivity.
+  - unfold icmp_dispatch in EX.
+    match type of EX with obind ?x _ = _ => destruct x as [[[? ?] ?]| |]; cbn [obind] in EX; [|discriminate EX..] end.
+    inversion EX; subst. reflexivity.
+  - unfold raw_dispatch in EX.
+    match type of EX with obind ?x _ = _ => destruct x as [[[? ?] ?]| |]; cbn [obind] in EX; [|discriminate EX..] end.
+    inversion EX; subst. reflexivity.
+Qed.
+
+Lemma dispatch_ok_step : forall ev s, sock_wf s ->
+  exists s' r, sock_step ev s (OpDispatch EMIT_OK) = Ok (s', r) /\ sock_wf s' /\
+    rx_pending s' = rx_pending s /\
+    (forall h d, sock_prepare ev s' h d = sock_prepare ev s h d) /\
+    match tx_pending s with
+    | [] => tx_pending s' = []
+    | x :: rest => tx_pending s' = rest /\ r = SR_Dispatch (Some x) (sock_prepare ev s (fst x) (snd x)) 0
+    end.
+Proof.
+  intros ev s W.
+  destruct (sock_step_spec ev s (OpDispatch EMIT_OK) W I) as (s' & r & E & W' & R).
+  exists s', r. split; [exact E|]. split; [exact W'|].
+  assert (P : forall h d, sock_prepare ev s' h d = sock_prepare ev s h d).
+  { cbn [sock_step] in E.
+    match type of E with obind ?x _ = _ => destruct x as [[[? ?] ?]| |] eqn:EX; cbn [obind] in E; [|discriminate E..] end.
+    inversion E; subst. eapply sock_dispatch_prepare; eauto. }
+  destruct r; cbn in R; try contradiction.
+  - destruct R as (Rx & R). split; [exact Rx|]. split; [exact P|].
+    destruct (tx_pending s) as [|[h d] rest].
+    + tauto.
+    + destruct R as (-> & R). cbn [fst snd]. destruct (sock_prepare ev s h d).
+      * destruct R as (-> & -> & ->). auto.
+      * destruct R as (-> & -> & ->). auto.
+  - (* SR_NA is impossible for a dispatch *)
+    cbn [sock_step] in E.
+    match type of E with obind ?x _ = _ => destruct x as [[[? ?] ?]| |]; cbn [obind] in E; [|discriminate E..] end.
+    discriminate E.
+Qed.
+
+Theorem c09_tx_exactly_once_when_emit_ok : forall ev s, sock_wf s ->
+  exists s' rs,
+    sock_run ev s (repeat (OpDispatch EMIT_OK) (length (tx_pending s))) = Ok (s', rs) /\
+    tx_pending s' = [] /\ rx_pending s' = rx_pending s /\
+    rs = map (fun x => SR_Dispatch (Some x) (sock_prepare ev s (fst x) (snd x)) 0) (tx_pending s).
+Proof.
+  intros ev s. remember (length (tx_pending s)) as n eqn:En. revert s En.
+  induction n as [|n IH]; intros s En W.
+  - exists s, []. cbn. destruct (tx_pending s); [auto|discriminate].
+  - destruct (dispatch_ok_step ev s W) as (s1 & r & E1 & W1 & Rx1 & P1 & T1).
+    destruct (tx_pending s) as [|x rest] eqn:ET; [discriminate|]. destruct T1 as (T1 & ->).
+    cbn [length] in En. inversion En as [En'].
+    destruct (IH s1 ltac:(rewrite T1; exact En') W1) as (s2 & rs & E2 & T2 & Rx2 & Ers).
+    exists s2, (SR_Dispatch (Some x) (sock_prepare ev s (fst x) (snd x)) 0 :: rs).
+    split; [|split; [exact T2|split; [congruence|]]].
+    + cbn [repeat sock_run]. rewrite E1. cbn [obind]. rewrite <- En'. rewrite E2. reflexivity.
+    + cbn [map]. f_equal. rewrite Ers, T1. apply map_ext. intros [h d]. cbn. rewrite P1. reflexivity.
+Qed.
+
+(* one call, any reachable state: the complete specification of the step *)
+Theorem c09_step_spec : forall ev s op, sock_wf s -> op_args_ok op ->
+  exists s' r, sock_step ev s op = Ok (s', r) /\ sock_wf s' /\ step_rel ev s op r s'.
+Proof. exact sock_step_spec. Qed.
+
+Theorem c09_truncated_is_error_not_short_data : forall ev s cap m d rest,
+  sock_wf s -> rx_pending s = (m, d) :: rest ->
+  exists s' rr,
+    sock_step ev s (OpRecvSlice cap) = Ok (s', SR_Recv rr) /\ rx_pending s' = rest /\
+    (if cap <? zlen d then rr = RR_Trunc (zlen d) (Some (m, d)) else rr = RR_Ok (zlen d) m d) /\
+    (forall s2 r2, sock_step ev s (OpPeekSlice cap) = Ok (s2, r2) ->
+       r2 = SR_NA \/
+       (rx_pending s2 = (m, d) :: rest /\
+        r2 = SR_Recv (if cap <? zlen d then RR_Trunc (zlen d) None else RR_Ok (zlen d) m d))).
+Proof.
+  intros ev s cap m d rest W EP.
+  assert (Peek : forall s2 r2, sock_step ev s (OpPeekSlice cap) = Ok (s2, r2) ->
+       r2 = SR_NA \/
+       (rx_pending s2 = (m, d) :: rest /\
+        r2 = SR_Recv (if cap <? zlen d then RR_Trunc (zlen d) None else RR_Ok (zlen d) m d))).
+  { intros s2 r2 E2.
+    destruct (sock_step_spec ev s (OpPeekSlice cap) W I) as (s3 & r3 & E3 & _ & R3).
+    rewrite E2 in E3. inversion E3; subst s3 r3.
+    destruct r2; cbn in R3; try contradiction; [right|left; reflexivity].
+    destruct R3 as (_ & R3). unfold recv_rel in R3. rewrite EP in R3. destruct R3 as (R30 & R3).
+    split; [exact R30|]. destruct (cap <? zlen d); subst; reflexivity. }
+  destruct (sock_step_spec ev s (OpRecvSlice cap) W I) as (s' & r & E & _ & R).
+  destruct r; cbn in R; try contradiction.
+  - destruct R as (_ & R). unfold recv_rel in R. rewrite EP in R. destruct R as (R0 & R).
+    exists s', r. split; [exact E|]. split; [exact R0|]. split; [exact R|exact Peek].
+  - (* recv_slice exists for every socket kind *)
+    destruct s; cbn [sock_step] in E;
+      match type of E with obind ?x _ = _ => destruct x as [[? ?]| |]; cbn [obind] in E; [|discriminate E..] end;
+      discriminate E.
+Qed.
+
+(* ------------------------------------------------------------------ *)
+(* Part D: interface                                                   *)
+(* ------------------------------------------------------------------ *)
+Inductive udp_demux (ev : env) (src : ipaddr) (sport : Z) (dst : ipaddr) (dport : Z) (payload : list Z)
+  : sset -> sset -> bool -> Prop :=
+| DemuxNone : forall ss,
+    (forall m u, In (m, SUdp u) ss -> udp_accepts ev u dst dport = false) ->
+    udp_demux ev src sport dst dport payload ss ss false
+| DemuxHit : forall pre m u u' ok post,
+    (forall m0 u0, In (m0, SUdp u0) pre -> udp_accepts ev u0 dst dport = false) ->
+    udp_accepts ev u dst dport = true ->
+    udp_process u src sport dst payload = Ok (u', ok) ->
+    udp_demux ev src sport dst dport payload (pre ++ (m, SUdp u) :: post) (pre ++ (m, SUdp u') :: post) true.
+
+Theorem c09_first_matching_udp_socket_only : forall ev src sport dst dport payload ss ss' handled,
+  if_process_udp ev ss src sport dst dport payload = Ok (ss', handled) ->
+  udp_demux ev src sport dst dport payload ss ss' handled.
+Proof.
+  intros ev src sport dst dport payload ss; induction ss as [|[m sk] ss IH]; intros ss' handled H.
+  - cbn in H. inversion H; subst. apply DemuxNone. intros ? ? [].
+  - assert (Skip : (forall u, sk = SUdp u -> udp_accepts ev u dst dport = false) ->
+                   forall rest' h, if_process_udp ev ss src sport dst dport payload = Ok (rest', h) ->
+                   ss' = (m, sk) :: rest' -> handled = h ->
+                   udp_demux ev src sport dst dport payload ((m, sk) :: ss) ss' handled).
+    { intros NA rest' h E -> ->. apply IH in E. inversion E; subst.
+      - apply DemuxNone. intros m0 u0 [Heq|Hin]; [inversion Heq; subst; auto|eauto].
+      - change ((m, sk) :: pre ++ (m0, SUdp u) :: post) with (((m, sk) :: pre) ++ (m0, SUdp u) :: post).
+        change ((m, sk) :: pre ++ (m0, SUdp u') :: post) with (((m, sk) :: pre) ++ (m0, SUdp u') :: post).
+        eapply DemuxHit; eauto.
+        intros m1 u1 [Heq|Hin]; [inversion Heq; subst; auto|eauto]. }
+    destruct sk as [u|i|r]; cbn [if_process_udp] in H.
+    + destruct (udp_accepts ev u dst dport) eqn:EA.
+      * destruct (udp_process u src sport dst payload) as [[u' ok]| |] eqn:EP; cbn [obind] in H; try discriminate.
+        inversion H; subst. apply (DemuxHit ev src sport dst dport payload [] m u u' ok ss); auto.
+        intros ? ? [].
+      * destruct (if_process_udp ev ss src sport dst dport payload) as [[rest' h]| |] eqn:ER; cbn [obind] in H; try discriminate.
+        inversion H; subst. eapply Skip; eauto. intros u0 Hu; inversion Hu; subst; auto.
+    + destruct (if_process_udp ev ss src sport dst dport payload) as [[rest' h]| |] eqn:ER; cbn [obind] in H; try discriminate.
+      inversion H; subst. eapply Skip; eauto. intros; discriminate.
+    + destruct (if_process_udp ev ss src sport dst dport payload) as [[rest' h]| |] eqn:ER; cbn [obind] in H; try discriminate.
+      inversion H; subst. eapply Skip; eauto. intros; discriminate.
 Qed.
